@@ -598,6 +598,13 @@ def _failures_topk(case, obs):
     return bad
 
 
+def _in_quantifier(case, chunks):
+    """tokens are non-empty; the only exception the handler supports by design is an empty FIRST token through on_llm_new_token"""
+    if "" not in chunks:
+        return True
+    return case["feed"] == "token" and chunks[0] == "" and "" not in chunks[1:]
+
+
 def _failures(case, obs):
     if case.get("kind") == "topk":
         return _failures_topk(case, obs)
@@ -605,6 +612,9 @@ def _failures(case, obs):
         return _failures_usage(case, obs)
     exp = expected(case)
     bad = []
+    cks = chunkings_of(case)
+    if not all(_in_quantifier(case, c) for c in cks):
+        return bad  # empty tokens mid-stream (or an empty first chunk through push_chunk = an end marker): model comparison only
     if case.get("pipe_cfg"):
         # two-stage pipe: the second handler applies ITS patterns to what the first one delivers.  Its end of stream is
         # the first handler's end marker; on_llm_end always forwards one (without it the held-back tail stays inside).
@@ -845,7 +855,7 @@ def shrink(case):
         yield {k: v for k, v in case.items() if k != "pipe_cfg"}
     elif case["pipe"]:
         yield dict(case, pipe=False)
-    if case["feed"] != "push":
+    if case["feed"] != "push" and "" not in cs:
         yield dict(case, feed="push")
     # 3. merge neighbouring chunks / drop one character
     for i in range(len(cs) - 1):
